@@ -178,25 +178,27 @@ func (av arrayValue) PropertyValue(iv Value) Value {
 }
 
 func (mv mapValue) Contains(iv Value) bool {
-	mr := reflect.ValueOf(mv.value)
-	ir := reflect.ValueOf(iv.Interface())
-	if ir.IsValid() && mr.Type().Key() == ir.Type() {
-		return mr.MapIndex(ir).IsValid()
-	}
-	return false
+	// a map contains a key exactly when looking the key up finds an entry
+	return mv.entry(iv).IsValid()
 }
 
-func (mv mapValue) IndexValue(iv Value) Value {
+// entry returns the map entry under the index, converted to the map's key type as far as
+// reflect allows; the result is invalid if there is no such entry.
+func (mv mapValue) entry(iv Value) reflect.Value {
 	mr := reflect.ValueOf(mv.value)
 	ir := reflect.ValueOf(iv.Interface())
 	kt := mr.Type().Key()
 	// an integer converts to a string as a code point (65 to "A"): a string-keyed map has no such entry
-	if ir.IsValid() && ir.Type().ConvertibleTo(kt) && ir.Type().Comparable() &&
+	if ir.IsValid() && ir.Type().ConvertibleTo(kt) && ir.Comparable() &&
 		!(kt.Kind() == reflect.String && ir.Kind() != reflect.String) {
-		er := mr.MapIndex(ir.Convert(kt))
-		if er.IsValid() {
-			return ValueOf(er.Interface())
-		}
+		return mr.MapIndex(ir.Convert(kt))
+	}
+	return reflect.Value{}
+}
+
+func (mv mapValue) IndexValue(iv Value) Value {
+	if er := mv.entry(iv); er.IsValid() {
+		return ValueOf(er.Interface())
 	}
 	return nilValue
 }
